@@ -67,12 +67,17 @@ def make_function_class():
     class TestFunction(Function):
         """component 0: peaky driver 1/(1+s*|x-p|^2); component k>=1: sum of coef * prod_d g_d(x_d)"""
 
-        def __init__(self, dom, comps, peak, sharp):
+        def __init__(self, dom, comps, peak, sharp, sym=None):
             super().__init__()
             self.dom = dom
             self.comps = comps
             self.peak = np.asarray(peak, dtype=float)
             self.sharp = float(sharp)
+            # sym = level: driver sum_d frac(rel_d * 2^level)^2 -- looks the same in every cell of that level and in
+            # every dimension (equal twin errors in all dimensions -> extend-split splits in several dimensions at once)
+            self.sym = sym
+            self.lo = np.asarray([x[0] for x in dom], dtype=float)
+            self.width = np.asarray([x[1] - x[0] for x in dom], dtype=float)
 
         def output_length(self):
             return 1 + len(self.comps)
@@ -87,7 +92,12 @@ def make_function_class():
         def eval_vectorized(self, coordinates):
             c = np.asarray(coordinates, dtype=float)
             out = np.empty(c.shape[:-1] + (self.output_length(),))
-            out[..., 0] = 1.0 / (1.0 + self.sharp * np.sum((c - self.peak) ** 2, axis=-1))
+            if self.sym is None:
+                out[..., 0] = 1.0 / (1.0 + self.sharp * np.sum((c - self.peak) ** 2, axis=-1))
+            else:
+                w = ((c - self.lo) / self.width) * 2 ** self.sym
+                w = w - np.floor(w)
+                out[..., 0] = np.sum(w * w, axis=-1)
             for k, terms in enumerate(self.comps):
                 s = np.zeros(c.shape[:-1])
                 for coef, specs in terms:
@@ -563,7 +573,8 @@ def gen_esmulti_case(ctx, thorough):
             "version": 0, "automatic_extend_split": r.random() < 0.15, "split_single_dim": True,
             "before_extend": r.choice([1, 1, 2]), "estimator": "scripted", "multi": r.choice([0.4, 0.6, 0.8]),
             "seed": r.randrange(10 ** 9), "power": 1, "rounds": r.randint(2, 4),
-            "peak": [t] * dim if diag else [r.randint(1, 15) / 16 for _ in range(dim)], "sharp": r.choice([0.5, 4, 40])}
+            "peak": [t] * dim if diag else [r.randint(1, 15) / 16 for _ in range(dim)], "sharp": r.choice([0.5, 4, 40]),
+            "sym": lmin if r.random() < 0.7 else None}
 
 
 def run_es(ctx, drv, case):
@@ -578,7 +589,8 @@ def run_es(ctx, drv, case):
             "split_single_dim": case["split_single_dim"], "before_extend": case["before_extend"], "estimator": case["estimator"]}
     rec = Recorder(ctx, case, tags)
     comps = gen_multilinear_comps(rng, dim, 3, 2)
-    f = make_function_class()(dom, comps, [dom[d][0] + (dom[d][1] - dom[d][0]) * case["peak"][d] for d in range(dim)], case["sharp"])
+    f = make_function_class()(dom, comps, [dom[d][0] + (dom[d][1] - dom[d][0]) * case["peak"][d] for d in range(dim)], case["sharp"],
+                              sym=case.get("sym"))
     a = np.array([x[0] for x in dom])
     b = np.array([x[1] for x in dom])
     ok = drv.ask("dw %d %d %d std" % (dim, lmin, lmax)) == "ok"
